@@ -35,6 +35,7 @@ type c09Case struct {
 	Reply       []c09Seg // what the redirect target writes
 	TargetClose int      // ms after its last reply chunk at which the target closes; 0 = stays open
 	ReplayFirst bool     // present the (valid) packet once before, so that this presentation is a replay
+	NoRedirPort bool     // RedirAddr configured without a port: the port the peer connected to is used
 }
 
 func unb64(s string) []byte {
@@ -51,7 +52,7 @@ func c09Inner(c c09Case) (vk.Result, error) {
 		return res, fmt.Errorf("harness: %v", err)
 	}
 	defer mgr.Close()
-	srv := newVSrv(vSrvOpts{Manager: mgr, Admin: c07AdminUID, Bypass: [][]byte{[]byte("c08-bypass-user!")}, Methods: []string{"shadowsocks"}, AutoNet: true, Tap: true})
+	srv := newVSrv(vSrvOpts{Manager: mgr, Admin: c07AdminUID, Bypass: [][]byte{[]byte("c08-bypass-user!")}, Methods: []string{"shadowsocks"}, AutoNet: true, Tap: true, NoRedirP: c.NoRedirPort})
 	defer srv.stop()
 	srv.serve()
 	var mu sync.Mutex
@@ -192,6 +193,12 @@ func c09Inner(c c09Case) (vk.Result, error) {
 		// (2) complete first packet that is not a valid fresh handshake: relayed byte for byte
 		if tconns != 1 {
 			return res, vk.ViolateSig("not-redirected", "a peer whose first packet (%s, %d bytes) completed after %v was not relayed to the redirect target (target connections: %d)", c.Class, len(P), completeAt, tconns)
+		}
+		// relayed to the configured redirect target (its configured port, or the port the peer connected to)
+		for _, a := range srv.sta.RedirDialer.(*vk.Dialer).Requested() {
+			if a != "tcp 10.9.9.9:443" {
+				return res, vk.ViolateSig("redirect-address", "unauthenticated peer relayed to %q, configured redirect target is 10.9.9.9 port 443", a)
+			}
 		}
 		if !bytes.HasPrefix(P, tg) {
 			return res, vk.ViolateSig("relay-altered", "the redirect target received %d bytes that are not a prefix of the peer's stream (first difference at %d)", len(tg), firstDiffB(tg, P))
@@ -380,6 +387,7 @@ func c09Gen(t *testing.T) func(rt *rapid.T) c09Case {
 			c.Reply = append(c.Reply, c09Seg{Hex: b64(rapid.SliceOfN(rapid.Byte(), 1, 3000).Draw(rt, "reply")), DelayMs: rapid.SampledFrom([]int{0, 1, 100, 5000}).Draw(rt, "rdelay")})
 		}
 		c.TargetClose = rapid.SampledFrom([]int{0, 0, 0, 1, 1000, 60000}).Draw(rt, "tclose")
+		c.NoRedirPort = rapid.Bool().Draw(rt, "noredirport")
 		return c
 	}
 }
